@@ -38,6 +38,9 @@ def main(argv):
         seed = int(os.environ.get("VERIF_SEED", "0"))
     except ValueError:
         seed = 0
+    # per-case watchdog (a hang in the implementation must not hang the check): generous enough that a heavily loaded machine
+    # does not trip it - thorough case blocks are up to ten times larger than quick ones
+    os.environ.setdefault("VERIF_CASE_TIMEOUT", "900" if tier == "quick" else "3600")
     run = core.Run(pid, tier, seed, mod.LEVEL)
     mod.run(run)
     return run.finish()
